@@ -106,7 +106,7 @@ type rawWorld struct {
 	db       *lab.JournaledDB
 	dbDir    string
 	ended    map[string]bool // SQLite backend: tokens whose session the harness has seen end
-	devs     []*rawDev // index 0 unused
+	devs     []*rawDev       // index 0 unused
 	kind     lab.Kind
 	enc      protocol.KeyEncoding
 	appStart []byte
